@@ -19,6 +19,8 @@ type VerifListener interface {
 	TryNext() (ev *VerifEvent, got bool, open bool)
 	// Len returns the number of queued events.
 	Len() int
+	// Done is closed when the listener has shut down (the socket writer's exit signal).
+	Done() <-chan struct{}
 }
 
 // VerifEvent is a queued monitor event in a version independent form.
@@ -44,6 +46,10 @@ func VerifNewListenerV2(hub *msghub.Hub, mailbox string) VerifListener {
 }
 
 func (l verifListenerV1) Len() int { return len(l.c) }
+
+func (l verifListenerV1) Done() <-chan struct{} { return l.done }
+
+func (l verifListenerV2) Done() <-chan struct{} { return l.done }
 
 func (l verifListenerV1) TryNext() (*VerifEvent, bool, bool) {
 	select {
